@@ -10,6 +10,8 @@ R2  each site is discharged by guard reasoning along all symbolic paths (buffer 
 R3  counters/tokens/incarnations are only advanced through wrapping/saturating arithmetic.
 R4  values cached from Config are re-established by every writer of Foca.config (send_buf capacity).
 """
+import re
+
 from .lib import query as q
 from .lib.budget import Budget, buffer_id
 from .lib.effects import Effects
@@ -38,6 +40,8 @@ def classify(decl, res, selfty):
         return 'third-party'
     if any(name.startswith(p) for p in T.TOTAL_PREFIXES):
         return 'total'
+    if T.TOTAL_RE.match(name):
+        return 'total'
     if not res:
         if any(decl.startswith(p) for p in T.USER_DECL_PREFIXES):
             return 'user'
@@ -46,12 +50,31 @@ def classify(decl, res, selfty):
     return None
 
 
+def owner_name(f, body):
+    """The function of the reference tree a site belongs to: closures count with their parent, a helper that does
+    not exist on the reference tree with its single known caller.  Table keys use this name, so that turning a closure
+    into straight-line code (or extracting a helper) does not orphan an audited entry."""
+    b = body
+    for _ in range(8):
+        if b.kind == 'Closure' and b.parent and len(f.by_name.get(b.parent, [])) == 1:
+            b = f.by_name[b.parent][0]
+        elif f.is_unknown_helper(b):
+            cs = {c[0].nname for c in f.callers_of(lambda n, nn=b.nname: n == nn)}
+            if len(cs) != 1:
+                break
+            b = f.fn(cs.pop())
+        else:
+            break
+    return b.nname
+
+
 class Site:
     def __init__(self, ctx, f, eff, rep, raw):
         self.ctx, self.f, self.eff, self.rep, self.raw = ctx, f, eff, rep, raw
         self.body = raw['body']
         self.block = raw['block']
         self._paths = None
+        self.owner = owner_name(f, self.body)
 
     @property
     def paths(self):
@@ -86,7 +109,7 @@ def bad(site, msg, facts=None):
 
 
 def audited(site, key=None, extra_ok=True, why=''):
-    key = key or (site.body.nname, site.raw['kind'], site.raw['desc'])
+    key = key or (site.owner, site.raw['kind'], site.raw['desc'])
     if key in T.AUDITED and extra_ok:
         return ok(site, 'audited: ' + T.AUDITED[key])
     if key in T.AUDITED:
@@ -128,7 +151,7 @@ def h_unwrap(site):
     if allconst:
         return ok(site, 'constant folding: NonZero::new(non-zero literal)')
     callee = site.raw['res'] or site.raw['decl']
-    key = (site.body.nname, 'call', callee)
+    key = (site.owner, 'call', callee)
     if key == ('Foca::send_message', 'call', 'core::result::Result::expect'):
         # fill(.., max_items) is called with the constant u16::MAX
         good = False
@@ -148,15 +171,23 @@ def h_unwrap(site):
     if key == ('<runtime::Timer as core::cmp::Ord>::cmp', 'call', 'core::option::Option::expect'):
         pb = site.f.fn('<runtime::Timer as core::cmp::PartialOrd>::partial_cmp')
         pp = site.ctx.paths(site.f, pb, 'none')
-        good = len(pp) == 1 and any(c['res'].endswith('for u8>::partial_cmp') for c in pp[0].calls()) and \
-            pp[0].ret[0] == 'call'
-        return audited(site, key, good, 'Timer::partial_cmp no longer returns u8::partial_cmp(seq, seq)')
+        # partial_cmp is Some on every path: `Some(..)` or the result of an integer partial_cmp (total order)
+        INTP = re.compile(r'PartialOrd for [ui](8|16|32|64|128|size)>::partial_cmp$')
+        good = bool(pp)
+        for p in pp:
+            if p.end != 'return':
+                continue
+            cs = {c['id']: c for c in p.calls()}
+            r = p.ret
+            good = good and ((r[0] == 'agg' and r[3] == 'Some') or
+                             (r[0] == 'call' and r[1] in cs and bool(INTP.search(cs[r[1]]['res']))))
+        return audited(site, key, good, 'Timer::partial_cmp can return None (it is neither Some(..) nor an integer partial_cmp)')
     return audited(site, key)
 
 
 def h_buf_need_const(k):
     def h(site):
-        if site.body.nname == 'Foca::send_message' and 'put_u16' in site.raw['desc'] and \
+        if site.owner == 'Foca::send_message' and 'put_u16' in site.raw['desc'] and \
                 '[u8]' in site.raw['term'].get('selfty', ''):
             return h_tally_patch(site)
         return need_budget(site, lambda e: (e['args'][0], k, []))
@@ -164,7 +195,7 @@ def h_buf_need_const(k):
 
 
 def h_buf_advance(site):
-    key = (site.body.nname, 'call', 'bytes::Buf::advance')
+    key = (site.owner, 'call', 'bytes::Buf::advance')
     if key in T.AUDITED:
         # postcard decoders: advance(remaining - rest.len())
         good = True
@@ -181,9 +212,9 @@ def h_put_slice(site):
 
 def h_index(site):
     callee = site.raw['res'] or site.raw['decl']
-    key = (site.body.nname, 'call', callee)
+    key = (site.owner, 'call', callee)
     if key in T.AUDITED:
-        if site.body.nname == 'member::Members::choose_members':
+        if site.owner == 'member::Members::choose_members':
             good = True
             for p, i, e in site.occurrences():
                 cs = q.conds_before(p, i)
@@ -195,7 +226,7 @@ def h_index(site):
                 good = good and g1 and g2
             return audited(site, key, good, 'index is no longer guarded by `replace_at < wanted` on the failing edge '
                                             'of `num_chosen < wanted`')
-        if site.body.nname == 'Foca::send_message':
+        if site.owner == 'Foca::send_message':
             return h_tally_patch(site)
         return audited(site, key)
     # slice[..end]
@@ -244,9 +275,9 @@ def h_tally_patch(site):
                            and evs[m]['res'] == 'alloc::vec::Vec::len']
                     if not src:
                         good, why = False, 'truncate to a position not recorded after the placeholder'
-    key = (site.body.nname, 'call', '<alloc::vec::Vec as core::ops::IndexMut>::index_mut')
+    key = (site.owner, 'call', '<alloc::vec::Vec as core::ops::IndexMut>::index_mut')
     if 'put_u16' in site.raw['desc']:
-        key = (site.body.nname, 'call', 'bytes::BufMut::put_u16#slice')
+        key = (site.owner, 'call', 'bytes::BufMut::put_u16#slice')
     return audited(site, key, good, why)
 
 
@@ -269,11 +300,11 @@ def h_swap_remove(site):
     for p, i, e in site.occurrences():
         idx = e['args'][1]
         calls = {c['id']: c for c in p.calls()}
-        good = (idx[0] == 'fieldv' and idx[3] == 'Some' and idx[1][0] == 'call'
-                and calls[idx[1][1]]['res'].endswith('Iterator>::position'))
+        opt = q.some_payload(p, idx)
+        good = opt is not None and opt[0] == 'call' and opt[1] in calls and calls[opt[1]]['res'].endswith('Iterator>::position')
         if good:
             vec = buffer_id(e['args'][0])
-            j = [k for k, x in enumerate(p.events) if x['kind'] == 'call' and x['id'] == idx[1][1]][0]
+            j = [k for k, x in enumerate(p.events) if x['kind'] == 'call' and x['id'] == opt[1]][0]
             for x in p.events[j + 1:i]:
                 if x['kind'] == 'call' and any(a[0] == 'ref' and a[2] and buffer_id(a) == vec for a in x['args']):
                     good = False
@@ -291,7 +322,7 @@ def h_drain_full(site):
 
 def h_audited_call(site):
     callee = site.raw['res'] or site.raw['decl']
-    key = (site.body.nname, 'call', callee)
+    key = (site.owner, 'call', callee)
     if key == ('member::Members::choose_members', 'call', 'rand::Rng::random_range'):
         good = True
         for p, i, e in site.occurrences():
@@ -356,10 +387,10 @@ def h_assert(site):
         if all(e['ops'][0][0] == 'const' and (e['ops'][0][2] or 0) != 0 for p, i, e in occ):
             return ok(site, 'division by a non-zero literal')
         # estimate_feed_capacity: check the call site
-        key = (site.body.nname, 'assert', 'DivisionByZero')
+        key = (site.owner, 'assert', 'DivisionByZero')
         good = False
         why = 'call site of estimate_feed_capacity is not dominated by put_u16 on the limited buffer'
-        if site.body.nname == 'Foca::estimate_feed_capacity':
+        if site.owner == 'Foca::estimate_feed_capacity':
             callers = site.f.callers_of(lambda n: n == 'Foca::estimate_feed_capacity')
             good = len(callers) == 1
             for cb, bi, tt in callers:
@@ -376,7 +407,7 @@ def h_assert(site):
                             if not (is_rem and put and lim):
                                 good = False
         return audited(site, key, good, why)
-    key = (site.body.nname, 'assert', site.raw['desc'])
+    key = (site.owner, 'assert', site.raw['desc'])
     if key in T.AUDITED_ASSERTS:
         extra, why = True, ''
         chk = ASSERT_SUBCHECKS.get(key)
@@ -428,7 +459,7 @@ def sub_indirect_ack_count(site):
 
 ASSERT_SUBCHECKS = {
     ('Foca::send_message', 'assert', 'Overflow(Add):num_items,1'): sub_send_message_num_items,
-    ('member::Members::apply::{closure#1}', 'assert', 'Overflow(Sub):len(upvar:self__inner),1'): sub_apply_len_minus_one,
+    ('member::Members::apply', 'assert', 'Overflow(Sub):len(self.inner),1'): sub_apply_len_minus_one,
     ('probe::Probe::receive_indirect_ack', 'assert', 'Overflow(Add):self.indirect_ack_count,1'): sub_indirect_ack_count,
 }
 
@@ -651,25 +682,11 @@ def p_num_members(zero):
         fn = 'Foca::become_disconnected' if zero else 'Foca::become_connected'
 
         def pred(p, c):
-            ex = c['expr']
-            if ex[0] != 'binop':
-                return False
-            calls = {x['id']: x for x in p.calls()}
-            a, b = ex[2], ex[3]
-            if not (a[0] == 'call' and calls[a[1]]['res'] == 'member::Members::num_active' and b[0] == 'const' and b[2] == 0):
-                return False
-            t = q.cond_truth(c)
-            if zero:
-                return (ex[1] == 'Eq' and t is True) or (ex[1] in ('Gt', 'Ne') and t is False)
-            return (ex[1] in ('Gt', 'Ne') and t is True) or (ex[1] == 'Eq' and t is False)
+            return q.zero_test(c, q.num_active_term(p)) == ('zero' if zero else 'pos')
         okc, why = callers_guarded(site, fn, pred, 'num_active() %s 0' % ('==' if zero else '>'))
         if not okc:
             return okc, why
-        # num_members() is num_active()
-        nb = site.f.fn('Foca::num_members')
-        pp = site.ctx.paths(site.f, nb, 'none')
-        good = len(pp) == 1 and len(pp[0].calls()) == 1 and pp[0].calls()[0]['res'] == 'member::Members::num_active'
-        return good, 'num_members() is no longer members.num_active()'
+        return True, ''
     return chk
 
 
@@ -846,23 +863,23 @@ PANIC_CHECKS = {
                          'received ones are bounded by their 16-bit length prefix'),
     ('Foca::handle_data', 'Eq(0, capacity(self.updates_buf)) == 0'):
         (p_updates_buf_untouched, 'nothing reachable from apply_many writes Foca.updates_buf'),
-    ('Foca::probe_random_member', 'Eq(self.connection_state, ConnectionState::Connected) == 0'):
+    ('Foca::probe_random_member', 'Eq(ConnectionState::Connected, self.connection_state) == 0'):
         (p_probe_connected, 'the only caller tests connection_state == Connected first'),
-    ('Foca::apply_update', 'Eq(self.identity, id(update)) == 1'):
+    ('Foca::apply_update', 'Eq(self.identity, update.id) == 1'):
         (p_apply_update_not_self, 'each caller has compared the applied identity with self.identity and found them different'),
-    ('Foca::become_disconnected', 'Eq(0, num_members(self)) == 0'):
+    ('Foca::become_disconnected', 'Eq(0, self.members.num_active) == 0'):
         (p_num_members(True), 'only called on the num_active() == 0 edge'),
-    ('Foca::become_connected', 'Eq(0, num_members(self)) == 1'):
+    ('Foca::become_connected', 'Eq(0, self.members.num_active) == 1'):
         (p_num_members(False), 'only called on the num_active() > 0 edge'),
-    ('Foca::send_message', 'Eq(capacity(get_ref(buf)), NonZeroGet(self.config.max_packet_size)) == 0'):
+    ('Foca::send_message', 'Eq(NonZeroGet(self.config.max_packet_size), capacity(get_ref(buf))) == 0'):
         (p_send_buf_capacity, 'C06-R4: every writer of config / send_buf re-establishes capacity == max_packet_size'),
     ('Foca::send_message', 'Eq(0, capacity(self.send_buf)) == 0'):
         (p_send_buf_untouched, 'no callee receives &mut self or &mut send_buf while the buffer is taken'),
     ('probe::Probe::expect_indirect_ack', '#probe-target-differs'):
         (p_expect_indirect_ack, 'guarded by is_probing(probed_id) and helpers are picked with candidate != probed_id'),
-    ('<codec::postcard_impl::PostcardCodec as codec::Codec>::decode_header', 'Eq(remaining(buf), len(chunk(buf))) == 0'):
+    ('<codec::postcard_impl::PostcardCodec as codec::Codec>::decode_header', 'Eq(len(chunk(buf)), remaining(buf)) == 0'):
         (p_postcard_contiguous, 'Foca only passes &mut &[u8] to decode_*'),
-    ('<codec::postcard_impl::PostcardCodec as codec::Codec>::decode_member', 'Eq(remaining(buf), len(chunk(buf))) == 0'):
+    ('<codec::postcard_impl::PostcardCodec as codec::Codec>::decode_member', 'Eq(len(chunk(buf)), remaining(buf)) == 0'):
         (p_postcard_contiguous, 'as decode_header'),
     ('<core::net::SocketAddr as identity::Identity>::win_addr_conflict', '#unconditional'):
         (p_socketaddr_conflict, 'unreachable: addr() is the identity and renew() is None'),
@@ -874,16 +891,16 @@ PANIC_CHECKS = {
 
 
 def h_panic(site, cache):
-    occ = site.occurrences()
+    # the guarding condition in canonical form: pure accessors seen through, orientation/negation normalised
     shapes = set()
-    for p, i, e in occ:
-        cs = q.conds_before(p, i)
-        if cs:
-            c = cs[-1]
-            shapes.add('%s == %s' % (q.describe(p, c['expr'], site.body), c['taken']))
-        else:
-            shapes.add('#unconditional')
-    fn = site.body.nname
+    kinds = ('call',) if site.raw['kind'] in ('call', 'panic') else ('assert',)
+    for p in site.ctx.paths(site.f, site.body, 'getters'):
+        for i, e in enumerate(p.events):
+            if e['kind'] in kinds and e.get('block') == site.block and e.get('body') == site.body.nname \
+                    and e.get('depth') == 0:
+                cs = q.conds_before(p, i)
+                shapes.add(q.canon_cond(p, cs[-1], site.body) if cs else '#unconditional')
+    fn = site.owner
     if fn == 'broadcast::Broadcasts::fill_with_len_prefix' and any(s.startswith('is_ok(') for s in shapes):
         shapes = {'#len-fits-u16'}
     if fn == 'probe::Probe::expect_indirect_ack':
